@@ -70,7 +70,7 @@ def makeEllipsoid(S, a, b=None, c=None):
     sabc = array([a, b, c])
 
     # Create a supercell large enough for the ellipsoid
-    frac = S.lattice.fractional(sabc)
+    frac = sabc.dot(abs(S.lattice.recbase))
     # FIXME - this looks fishy for non-orthogonal lattices
     mno = max(ceil(2 * xi) for xi in frac) * array([1, 1, 1])
     # Make the supercell
